@@ -54,6 +54,19 @@ PROPS = {
             'unit spellings (1G = 1024M, 100% = 100): the parsers utils.megabytes/cpu_units are not yet under '
             'contract (string theory); not decided by this check'],
     },
+    'C03': {
+        'contract_modules': ['scheduler_core', 'scheduler_cell'],
+        'functions': SCHED_CORE + SCHED_CELL + [S + 'Cell.add_app'],
+        'replay': 'scheduler.py',
+        'assumptions': SCHED_ASSUME + [
+            'lease clause is proved against the clock value at the start of the placing call (a lower bound of the '
+            'value check_app_lifetime reads); placement_expiry is computed from a later clock read (drift not bounded)',
+            'server labels, traits, state and valid_until are not written during a cycle (frame conditions, proved); '
+            'events that change them between cycles (server re-labelled, traits changed) are not under contract',
+            'trait masks are 64-bit vectors; traits.encode never hands the invalid bit to a server (not under contract)',
+            'partition root allocations carry their partition label (PartitionDict.__missing__)',
+        ],
+    },
     'C05': {
         'contract_modules': ['scheduler_core', 'scheduler_cell'],
         'functions': SCHED_CORE + SCHED_CELL + [S + x for x in (
